@@ -501,7 +501,36 @@ def gen_cases(rng, tier, budget):
             cases.append("W %s,%d,%d,%d,%d" % (st, e, (e * 3) % 2 ** 64, e % 2 ** 32, 7))
     for i in range(250 if tier == "quick" else 5000):
         cases.append(gen_wire(rng))
-    return cases
+    return [to_classes(c) for c in cases]
+
+
+CLASS_OF_BUCKET = {"7": "0", "0": "1", "11": "2", "3": "z"}
+
+
+def to_classes(case):
+    """The generators above think in concrete ids/bucket numbers (s7,s10,... in bucket 7; s2 in 0; s3 in 11; bucket 3
+    empty).  The case handed to the harness names only the CO-LOCATION CLASS of each session (which bucket number an
+    id hashes to is the implementation's free choice): header <class>:<type>, ticks T,<class|z>,..."""
+    t = case.split()
+    if t[0] not in ("S", "Sr"):
+        return case
+    k = int(t[1])
+    out = t[:2]
+    for h in t[2:2 + k]:
+        _, b, ty = h.split(":")
+        out.append(CLASS_OF_BUCKET[b] + ":" + ty)
+    for op in t[2 + k:]:
+        if op.startswith("C/"):
+            g = op.split("/")
+            g = g[:2] + [(",".join(["T", CLASS_OF_BUCKET[m.split(",")[1]]] + m.split(",")[2:]) if m.startswith("T,") else m)
+                         for m in g[2:]]
+            out.append("/".join(g))
+        elif op.startswith("T,"):
+            a = op.split(",")
+            out.append(",".join(["T", CLASS_OF_BUCKET[a[1]]] + a[2:]))
+        else:
+            out.append(op)
+    return " ".join(out)
 
 
 def parts(line):
@@ -671,7 +700,7 @@ def distribution(cases, impl):
         k = int(t[1])
         d["sessions"][k] = d["sessions"].get(k, 0) + 1
         for x in t[2:2 + k]:
-            ty = {"i": "ipoe", "p": "pppoe", "g": "l2gw"}.get(x.split(":")[2], "?")
+            ty = {"i": "ipoe", "p": "pppoe", "g": "l2gw"}.get(x.split(":")[-1], "?")
             d.setdefault("access_types", {})[ty] = d.setdefault("access_types", {}).get(ty, 0) + 1
         ops = t[2 + k:]
         b = min(len(ops) // 5 * 5, 40)
